@@ -232,6 +232,9 @@ def run_one(h, crate, scratch, target_seed, timeout_s, mem_gb, extra_args=None, 
         cmd += extra_args
     if playback:
         cmd += ["-Z", "concrete-playback", "--concrete-playback=" + playback]
+    if h.get("cbmc_args"):
+        # must be the last flags
+        cmd += ["-Z", "unstable-options", "--cbmc-args"] + list(h["cbmc_args"])
     env = dict(os.environ)
     env["CARGO_NET_OFFLINE"] = "true"
     env.pop("RUSTFLAGS", None)
